@@ -52,7 +52,10 @@ def _methods(prog, ci):
     """methods of a class with their same-module helper calls expanded in place (see yawsa.inline)"""
     from ..inline import inlined
 
-    return [inlined(prog, m, keep=KEEP_CALLS) for m in ci.methods.values()]
+    out = [inlined(prog, m, keep=KEEP_CALLS) for m in ci.methods.values()]
+    expanded = {q for m in out for q in getattr(m, "inlined_helpers", [])}
+    # a private helper that was expanded into the methods that call it is analysed there, not on its own
+    return [m for m in out if not (m.qualname in expanded and m.name.startswith("_") and not m.name.startswith("__"))]
 
 
 def _method(prog, ci, name):
